@@ -271,6 +271,39 @@ fn check_infix(case: &Json, stats: &mut Stats) -> Verdict {
                 );
             }
         }
+        // the groupings side by side in one comparison: the unparenthesised text equals the table's grouping
+        // and differs from every grouping that has another value (two expressions with the same operands
+        // and operators in the same order are not thereby the same expression)
+        if exp_key.starts_with("value") && !exp_key.to_lowercase().contains("nan") {
+            let arithmetic = ops.iter().all(|o| matches!(*o, "+" | "-" | "*" | "/" | "%" | "<<" | ">>" | "**"));
+            let flat_text = flat(&vals, &ops, " ");
+            let mut programs: Vec<(String, &str)> = vec![(format!("(({flat_text}) == ({exp_text}), ({flat_text}) != ({exp_text}))"), "value (true, false)")];
+            for t in &trees {
+                if t.shape() == expected.shape() {
+                    continue;
+                }
+                let other = t.print(&vals, &ops);
+                let other_key = outcome_key(&other);
+                if !other_key.starts_with("value") || other_key == exp_key || other_key.to_lowercase().contains("nan") {
+                    continue;
+                }
+                programs.push((format!("(({flat_text}) == ({other}), ({flat_text}) != ({other}), ({other}) == ({exp_text}))"), "value (false, true, false)"));
+                if arithmetic {
+                    programs.push((format!("r := {flat_text} == {other}; s := {other} != {flat_text}; (r, s)"), "value (false, true)"));
+                    programs.push((format!("f := () -> any {{ if {flat_text} == {other} {{ return 1; }} return 0; }}; f()"), "value 0"));
+                }
+            }
+            for (program, want) in programs {
+                stats.eval();
+                let got = outcome_key(&program);
+                if got != outcome_key(want.trim_start_matches("value ")) {
+                    return fail(
+                        format!("C14:infix-compared:{}", ops.join("_")),
+                        format!("`{program}` gives [{got}]; `{flat_text}` is grouped as `{exp_text}` = [{exp_key}], so the comparison has the value {}", want.trim_start_matches("value ")),
+                    );
+                }
+            }
+        }
         // the table's grouping computed one operator at a time from parameters (no constant, no composite
         // expression for the folding pass to rewrite): the composite forms must give what the steps give
         let type_of = |v: &str| match v {
@@ -644,6 +677,60 @@ fn templates() -> Vec<Json> {
     ] {
         let others: Vec<&str> = others;
         t.push(tpl("tokenisation", name, tp, flat, expected, &others, false));
+    }
+    // long chains of one operator (33 to 70 operands): still grouped left to right, whatever the
+    // length (floats round at every step, - and / are not associative); the value is computed here
+    for n in [33usize, 34, 35, 40, 64, 65, 70] {
+        let fl = |xs: &[f64], op: char| -> (String, String) {
+            let mut acc = xs[0];
+            for x in &xs[1..] {
+                acc = match op {
+                    '+' => acc + x,
+                    '-' => acc - x,
+                    '*' => acc * x,
+                    _ => acc / x,
+                };
+            }
+            let texts: Vec<String> = xs.iter().map(|x| crate::props::c08::lit_float(*x)).collect();
+            (texts.join(&format!(" {op} ")), crate::props::c08::lit_float(acc))
+        };
+        let mut big_then_ones = vec![1e16];
+        big_then_ones.extend(std::iter::repeat_n(1.0, n - 1));
+        let tenths: Vec<f64> = (0..n).map(|k| 0.1 + (k % 3) as f64 * 0.1).collect();
+        let factors: Vec<f64> = (0..n).map(|k| 1.0 + (k % 7) as f64 * 0.173).collect();
+        let mut ones_then_big: Vec<f64> = std::iter::repeat_n(1.0, n - 1).collect();
+        ones_then_big.push(1e16);
+        for (xs, op) in [(&big_then_ones, '+'), (&tenths, '+'), (&factors, '*'), (&big_then_ones, '-'), (&factors, '/'), (&ones_then_big, '+'), (&tenths, '-')] {
+            let (flat, value) = fl(xs, op);
+            let mut case = tpl("long-chain", &format!("{n} floats {op}"), "", &flat, &flat, &[], true);
+            case["value"] = json!(value);
+            t.push(case);
+            // the same over parameters of a function (nothing constant)
+            let params: Vec<String> = (0..xs.len()).map(|i| format!("p{i}: float")).collect();
+            let names: Vec<String> = (0..xs.len()).map(|i| format!("p{i}")).collect();
+            let args: Vec<String> = xs.iter().map(|x| crate::props::c08::lit_float(*x)).collect();
+            let program = format!("f := ({}) -> float {{ return {}; }}; f({})", params.join(", "), names.join(&format!(" {op} ")), args.join(", "));
+            let mut case = tpl("long-chain", &format!("{n} float parameters {op}"), "", &program, &program, &[], true);
+            case["value"] = json!(value);
+            t.push(case);
+        }
+        // ints: subtraction and division chains, wrapping sums
+        let ints: Vec<i64> = (0..n as i64).map(|k| k % 5 + 1).collect();
+        let sub = ints.iter().skip(1).fold(1000i64, |a, x| a.wrapping_sub(*x));
+        let mut case = tpl("long-chain", &format!("{n} ints -"), "", &format!("1000 - {}", ints.iter().skip(1).map(|x| x.to_string()).collect::<Vec<_>>().join(" - ")), "0", &[], false);
+        case["expected"] = case["flat"].clone();
+        case["value"] = json!(sub.to_string());
+        t.push(case);
+        let div_text = format!("9223372036854775807 / {}", ints.iter().skip(1).map(|x| (x % 2 + 1).to_string()).collect::<Vec<_>>().join(" / "));
+        let div = ints.iter().skip(1).fold(i64::MAX, |a, x| a / (x % 2 + 1));
+        let mut case = tpl("long-chain", &format!("{n} ints /"), "", &div_text, &div_text, &[], true);
+        case["value"] = json!(div.to_string());
+        t.push(case);
+        let strs: Vec<String> = (0..n).map(|k| format!("\"{}\"", char::from(b'a' + (k % 26) as u8))).collect();
+        let joined: String = (0..n).map(|k| char::from(b'a' + (k % 26) as u8)).collect();
+        let mut case = tpl("long-chain", &format!("{n} strings +"), "", &strs.join(" + "), &strs.join(" + "), &[], true);
+        case["value"] = json!(format!("\"{joined}\""));
+        t.push(case);
     }
     // `**` (and `**=`) in front of a cell: `* *m` would be well typed, `** m` is not (the documented
     // operands of ** are numbers), so the text may be rejected but never has the value of the product
